@@ -259,7 +259,7 @@ class GateSpec(boolpath.Spec):
                         if dv in ts:
                             s.state_tests += 1
                             out.append(ts[dv])
-                    elif s.password and "Option<" in ty and _has_password_field(b, {"cp": pl}):
+                    elif s.password and ("Option<" in ty or (fproj and fproj[-1]["f"].endswith("NetworkConfig.password"))) and _has_password_field(b, {"cp": pl}):
                         ne = boolpath.none_edge(b, bbi, t, lambda b_, o_: True)
                         if ne:
                             s.password_tests += 1
